@@ -110,6 +110,9 @@
     [fb-new-arg (fiber/new (fn [x] [x]))]
     [fb-yielded (let [f (fiber/new (fn [] (yield 1) (yield 2) 3))] (resume f) f)]
     [fb-yielded-arg (let [f (fiber/new (fn [x] (def y (yield x)) (def z (yield [x y])) [x y z]))] (resume f :first) f)]
+    # heap values that are referenced from stack slots only (a frame the collector skips shows as a use after free)
+    [fb-heap-arg (let [f (fiber/new (fn [x] (def y (yield 1)) [x y]))] (resume f (string/repeat "Q" 100)) f)]
+    [fb-heap-local (let [f (fiber/new (fn [] (def b (buffer/push-string @"" "local-" "zzzzzzzzzzzzzzzzzzzzzzzzzzzzzzzzzzzzzzzz")) (def t @{:k (string "vvvvvvvvvvvvvvvvvvvvvvvvvvvvvvvvvvvvvvvv" "w")}) (yield 1) [b t]))] (resume f) f)]
     [fb-frames (let [f (fiber/new (fn [] (defn g [x] (def r (yield x)) [x r]) (tuple 1 (g 5))))] (resume f) f)]
     [fb-frames-3 (let [f (fiber/new (fn [] (defn h [x] (yield x) x) (defn g [x & more] (tuple (h x) more)) (tuple (g 1 2 3))))] (resume f) f)]
     [fb-dead (let [f (fiber/new (fn [] 1))] (resume f) f)]
